@@ -266,6 +266,19 @@ def run_job(job):
             for a, b, mode in ((None, None, ""), (None, None, "dfs"), (2, None, "bfs"), (None, 2, "dfs"), (2, 3, ""), (1, 1, "dfs"), (3, 0, "bfs")):
                 run_case(res, w, home, [name], [snap], [(0, rng.choice(["rel", "abs", "dotrel"]), a, b, mode)], trace=False)
             res.count("large_tree_entries", len(snap))
+            # a chain of 45 nested directories (short names: PATH_MAX is not the point)
+            os.mkdir(os.path.join(w, "deep"))
+            chain = []
+            p = ""
+            for i in range(45):
+                p = ("c%d" % (i % 10)) if not p else p + "/c%d" % (i % 10)
+                chain.append({"path": p, "kind": "dir"})
+                if i % 9 == 0:
+                    chain.append({"path": p + "/leaf", "kind": "file", "size": 1})
+            tree.materialise(os.path.join(w, "deep"), chain)
+            dsnap = tree.snapshot(os.path.join(w, "deep"))
+            for a, b, mode in ((None, None, "bfs"), (None, None, "dfs"), (40, None, "dfs"), (None, 44, "bfs"), (10, 12, "dfs"), (46, 0, "bfs"), (45, 47, "")):
+                run_case(res, w, home, ["deep"], [dsnap], [(0, "rel", a, b, mode)], trace=False)
         else:  # exhaustive shapes
             for si, parents in enumerate(job["shapes"]):
                 name = "s%d" % si
